@@ -44,7 +44,7 @@ def _container(draw, blocks):
     if form == 'nested1':
         return {'c': 'dict', 'items': [['a', {'c': 'tuple', 'items': [blocks[0]]}]]}
     if form == 'dict':
-        keys = list(draw(st.permutations(['b', 'a', 'd', 'c'])))[:k]
+        keys = list(draw(st.permutations(['b', 'a', 'd', 'c'] + ['k%02d' % i for i in range(max(0, k - 4))])))[:k]
         return {'c': 'dict', 'items': [[key, b] for key, b in zip(keys, blocks)]}
     if form == 'nested':
         return {'c': 'dict', 'items': [['z', {'c': 'list', 'items': blocks[:-1]}], ['a', blocks[-1]]]}
@@ -76,10 +76,12 @@ def _insertion_leaves(c):
 
 
 @st.composite
-def single_case(draw, mode):
-    G = gen.GenCtx(mode, cap=14)
+def single_case(draw, mode, wide=False, allow_cg=True):
+    G = gen.GenCtx(mode, cap=14, allow_cg=allow_cg)
     kind = draw(st.sampled_from(['row', 'col', 'diag']))
     k = draw(st.integers(1, 4))
+    if wide or draw(st.integers(0, 7)) == 0:
+        k = draw(st.sampled_from([9, 10, 11, 12, 13, 17]))  # wide block operators (one block per detector / per band)
     sub = max(2, 14 // k)
     struct_kinds = ('leaf', 'leaf', 'leaf', 'tuple', 'stokes', 'dict')
     if kind == 'col':
